@@ -351,7 +351,11 @@ def writing_methods():
     msrc = source.get_module("aioesphomeapi.client")
     cls = msrc.classes["APIClient"]
     meths = {n.name: n for n in cls.body if isinstance(n, (ast.FunctionDef, ast.AsyncFunctionDef))}
-    direct = {n for n, f in meths.items() if any(isinstance(x, ast.Attribute) and x.attr in ("_get_connection",) for x in ast.walk(f))}
+    # a method reaches the wire through the gate `_get_connection()`, or by calling one of the connection's sending / subscribing
+    # methods on whatever object it got hold of (e.g. `self._connection` read directly)
+    SEND = {"_get_connection", "send_message", "send_messages", "send_message_await_response", "send_messages_await_response_complex",
+            "send_message_callback_response", "add_message_callback"}
+    direct = {n for n, f in meths.items() if any(isinstance(x, ast.Attribute) and x.attr in SEND for x in ast.walk(f))}
     changed = True
     while changed:
         changed = False
